@@ -1620,7 +1620,10 @@ func (h *Hashgraph) CheckBlock(block *Block, peerSet *peers.PeerSet) error {
 		return fmt.Errorf("Wrong PeerSet")
 	}
 
+	// Signatures are keyed by an arbitrary string in the block's map; several
+	// keys can decode to the same validator, so count each validator once.
 	validSignatures := 0
+	counted := make(map[string]bool)
 	for _, s := range block.GetSignatures() {
 		validatorHex := s.ValidatorHex()
 		if _, ok := peerSet.ByPubKey[validatorHex]; !ok {
@@ -1629,8 +1632,12 @@ func (h *Hashgraph) CheckBlock(block *Block, peerSet *peers.PeerSet) error {
 			}).Warning("Verifying Block signature. Unknown validator")
 			continue
 		}
+		if counted[validatorHex] {
+			continue
+		}
 		ok, _ := block.Verify(s)
 		if ok {
+			counted[validatorHex] = true
 			validSignatures++
 		}
 	}
